@@ -25,6 +25,18 @@ P = {
          "bounded exhaustive enumeration of configurations on the real Index::new against the dep relation",
          "Every target subset of an 8-directory universe (prefix siblings, 4-deep nesting) x every placement of uses entries from a 19-entry universe x declaration orders: the edge set built by Index::new must equal the declared relation exactly.",
          "Edges are read back through render_dotfile (the production renderer).", "4/C10"),
+ "C08": (True, "vx", "model_checking",
+         "exhaustive enumeration of write/pause scripts on the real reader+compressor under a paused clock with fixed select! seeds",
+         "Every script of (pause class relative to the flush tick, chunk) steps up to length 3 (thorough: 4) on one stream, for every listed select! seed, plus deviation-bounded multi-stream groups, executed on the real process_reader and Compressor threads in virtual time; every stored file must decode to exactly the bytes written to that stream. States = distinct stored outcomes, transitions = executions.",
+         "select! start order is covered by enumerated seeds, not proven complete; compressor OS threads run free (FIFO per stream). The end-to-end slice through `monorail run` binds the wrapper to process_plan.", "4/C08"),
+ "C17": (True, "vx", "exploration",
+         "exhaustive single-edit enumeration (every offset x 4 edits, truncations, appends) on real generated files",
+         "For generated files of 7 sizes around and beyond the I/O buffer size, produced by the real `config generate`: untouched must load; every single-byte edit at every offset, truncations and appends of the generated file, every offset of the source, every hex digit of the lockfile checksum must be rejected by Config::new+check.",
+         "Single edits only; Config::new+check called as cli::handle does.", "4/C17"),
+ "C18": (True, "vx", "exploration",
+         "bounded exhaustive enumeration of serialisations (layout, key order, padding to sizes around buffer boundaries)",
+         "Three base configurations x compact/pretty/tab x newline variants x whitespace padding to 9 sizes at 4 positions x key permutations: every serialisation must be accepted and load to the same configuration value.",
+         "Values outside the three bases are not explored.", "4/C18"),
 }
 
 TODO_REASON = "check not built yet in this round (design in DESIGN.md section 4); will be claimed once its explorer exists"
